@@ -281,6 +281,45 @@ func runC17(r *ev.Recorder) {
 		}
 	})
 	r.Count("key_order_keys", ne)
+	// (f) one tag map changed between renders that share a File (Tag keeps the caller's map):
+	// every render must show the map's CURRENT content, as a fresh File does
+	for _, nf := range []bool{false, true} {
+		shared := jen.NewFile("p")
+		shared.NoFormat = nf
+		m1 := map[string]string{"json": "alpha,omitempty", "db": "a"}
+		var decls []func() *jen.Statement
+		step := func(desc string) {
+			fresh := jen.NewFile("p")
+			fresh.NoFormat = nf
+			for _, d := range decls {
+				fresh.Add(d())
+			}
+			got, want := jh.RenderFile(shared), jh.RenderFile(fresh)
+			r.Eval(1)
+			r.Distinct(fmt.Sprintf("shared-map-%v-%s", nf, desc))
+			if got.Key() != want.Key() {
+				r.Violate(ev.Violation{Signature: "c17:map-changed-between-renders", What: fmt.Sprintf("%s (NoFormat=%v): the File renders\n%s\nbut a fresh File with the same declarations renders\n%s", desc, nf, got, want),
+					Case: ev.JSON(c17Case{Keys: []string{"shared-map"}}), Detail: desc})
+			}
+		}
+		add := func(name string) {
+			d := func() *jen.Statement { return jen.Type().Id(name).Struct(jen.Id("F").Int().Tag(m1)) }
+			decls = append(decls, d)
+			shared.Add(d())
+		}
+		add("A")
+		step("one struct tagged with map m")
+		m1["json"] = "beta"
+		step("after m[json] changed")
+		add("B")
+		step("after a second struct tagged with the same map was added")
+		m1["db"], m1["json"] = "zz", "gamma"
+		add("C")
+		step("after two values changed and a third struct was added")
+		delete(m1, "db")
+		m1["yaml"] = "y"
+		step("after a key was replaced (same size)")
+	}
 	m := map[string]string{"json": "a\"b`c\n", "x-y": "\xff", "a": ""}
 	cp := map[string]string{}
 	for k, v := range m {
@@ -294,6 +333,9 @@ func replayC17(raw json.RawMessage) (bool, string) {
 	var c c17Case
 	if err := json.Unmarshal(raw, &c); err != nil {
 		return true, "bad case"
+	}
+	if len(c.Keys) == 1 && c.Keys[0] == "shared-map" {
+		return true, "the shared-map sequence is replayed by running the check"
 	}
 	msg := c17Check(c.tagMap(), c.Formatted)
 	return msg == "", fmt.Sprintf("Tag(%q): %s", c.tagMap(), msg)
